@@ -156,3 +156,14 @@ Definition jh_from (size : N) (h0 : list N) (msg : list N) : list N :=
   let h := fold_left F8 (blocks_of (pad msg)) h0 in
   skipn (128 - N.to_nat size / 8) h.
 Definition jh (size : N) (msg : list N) : list N := jh_from size (iv size) msg.
+
+(** Continuation form used when hashing resumes from a chaining value reached
+    after a whole number of blocks: [data] is the not yet compressed rest of a
+    message of [total] bytes.  [pad msg = pad_tail (length msg) msg]
+    (Proofs/JHPad.v: [pad_eq_pad_tail]). *)
+Definition pad_tail (total : N) (data : list N) : list N :=
+  data ++ [0x80%N] ++ repeat 0%N (47 + N.to_nat ((64 - total mod 64) mod 64))
+       ++ be_split 16 (8 * total).
+Definition jh_tail (size : N) (h : list N) (total : N) (data : list N) : list N :=
+  let h' := fold_left F8 (blocks_of (pad_tail total data)) h in
+  skipn (128 - N.to_nat size / 8) h'.
